@@ -733,6 +733,8 @@ def _groups(sub, behs, seed):
 
 def _diff(bad):
     obs = bad['observed']
+    if not bad['expected']:
+        return []
     return sorted({k for x in bad['expected'] for k in x if x[k] != obs.get(k)}
                   if len(bad['expected']) == 1 else
                   set.intersection(*[{k for k in x if x[k] != obs.get(k)} for x in bad['expected']]))
